@@ -14,14 +14,6 @@
 //   * bound values: a leaf inside a let_value successor may watch the payload the successor was built from (it lives in the
 //     let_value operation, which must destroy the successor operation first): start and destructor of the leaf's
 //     operation state log `start_watch_dead` / `dtor_watch_dead` (implementation-only) if that payload is gone.
-//   * stored values (stage 6): a payload object that is constructed INSIDE OPERATION-STATE STORAGE (the root operation's
-//     buffer, or a block handed out by a counting allocator) is a value an algorithm stores on behalf of the user
-//     (let_value's values_, finally's value_, when_all's values_, stop_when's result_, when_any's optResult, a just
-//     operation's values_): its construction logs `vctor <v>`, its destruction `vdtor <v>` (model events TValCtor /
-//     TValDtor).  Identity is the storage: a moved-from stored object still logs its destruction, a temporary or a
-//     parameter copy on the stack logs nothing.  No harness sender holds a payload (k2v2::just makes it when started), so
-//     every logged object is one the library constructed.  let_error's stored error is an exception_ptr: the leaves of
-//     the let_error successor watch it (`dtor_ewatch_dead`, implementation-only).
 #pragma once
 #include "k2.hpp"
 #include <unifex/scheduler_concepts.hpp>
@@ -43,7 +35,6 @@
 #include <unifex/allocate.hpp>
 #include <unifex/with_allocator.hpp>
 #include <deque>
-#include <functional>
 #include <map>
 
 namespace k2v2 {
@@ -51,51 +42,21 @@ using k2::log; using k2::err; using k2::code_of; using k2::CTL; using k2::leaf_c
 
 inline int cur_ctx = 0;
 
-// ---- operation-state storage (stage 6): the root operation's buffer and the live allocator blocks -------------
-struct block_info { int a; std::size_t size; };
-inline std::map<void*, block_info> BLOCKS;      // live blocks -> the allocator they came from, their size
-inline const unsigned char* ROOT_LO = nullptr;  // the buffer the root operation is constructed in
-inline const unsigned char* ROOT_HI = nullptr;
-inline bool in_op_storage(const void* p) noexcept {
-  auto* c = static_cast<const unsigned char*>(p);
-  if (ROOT_LO && std::less_equal<>{}(ROOT_LO, c) && std::less<>{}(c, ROOT_HI)) return true;
-  for (auto& b : BLOCKS) {
-    auto* lo = static_cast<const unsigned char*>(b.first);
-    if (std::less_equal<>{}(lo, c) && std::less<>{}(c, lo + b.second.size)) return true;
-  }
-  return false;
-}
-
 // ---- the tracked value type -----------------------------------------------------------------------------
 inline int live_payloads = 0;
 constexpr int THROW_CODE = 77;
 constexpr unsigned PAYLOAD_LIVE = 0xA11CE5u;
-constexpr unsigned PAYLOAD_STORED = 0x5704EDu;
 struct payload {
   int v; bool armed;
   volatile unsigned alive_ = PAYLOAD_LIVE;   // cleared by the destructor; read by the leaves that watch a bound value
-  volatile unsigned stored_ = 0;             // PAYLOAD_STORED: this object lives in operation-state storage
   bool is_alive() const noexcept { return alive_ == PAYLOAD_LIVE; }
-  void born() noexcept {
-    ++live_payloads;
-    if (in_op_storage(this)) { stored_ = PAYLOAD_STORED; log("vctor " + std::to_string(v)); }
-  }
-  explicit payload(int x, bool a = false) noexcept : v(x), armed(a) { born(); }
-  payload(const payload& o) : v(o.v), armed(false) { if (o.armed) throw err{THROW_CODE}; born(); }
-  payload(payload&& o) : v(o.v), armed(false) { if (o.armed) throw err{THROW_CODE}; born(); }
+  explicit payload(int x, bool a = false) noexcept : v(x), armed(a) { ++live_payloads; }
+  payload(const payload& o) : v(o.v), armed(false) { if (o.armed) throw err{THROW_CODE}; ++live_payloads; }
+  payload(payload&& o) : v(o.v), armed(false) { if (o.armed) throw err{THROW_CODE}; ++live_payloads; }
   payload& operator=(const payload&) = delete;
-  ~payload() {
-    if (alive_ != PAYLOAD_LIVE) {     // not (or no longer) an object: destroyed twice, or a destructor run on raw storage
-      if (in_op_storage(this)) log("vdtor_dead " + std::to_string(alive_ == 0xDEADu ? v : -1));
-      return;
-    }
-    if (stored_ == PAYLOAD_STORED) log("vdtor " + std::to_string(v));
-    alive_ = 0xDEADu; --live_payloads;
-  }
+  ~payload() { alive_ = 0xDEADu; --live_payloads; }
 };
-// just(v): the payload is made when the operation is started, so that no sender (and no just operation) holds one:
-// unifex::just over an int, then a callable that the model does not see
-inline auto just(int v) { return unifex::then(unifex::just(v), [](int x) noexcept { return payload(x); }); }
+inline auto just(int v) { return unifex::just(payload(v)); }
 // the callable table over payloads: the argument is taken by reference, the result is a fresh object
 inline int void_result = 0;   // what a void upon_error / upon_done callable computed (picked up by the then() on top)
 struct pfn {
@@ -288,15 +249,8 @@ struct leaf_op {
 
   volatile unsigned alive_ = 0x600DC0DEu;     // destructor canary: a second destructor call on the same storage is reported
   const payload* watch;              // bound value of the enclosing let_value successor (or null)
-  const std::exception_ptr* ewatch;  // error bound by the enclosing let_error successor (or null); libstdc++'s destructor nulls it
-  bool ewatch_dead() const noexcept {
-    if (!ewatch) return false;
-    void* raw; std::memcpy(&raw, static_cast<const void*>(ewatch), sizeof raw);
-    return raw == nullptr;
-  }
   template <typename R2>
-  leaf_op(int i, bool re, const payload* w, const std::exception_ptr* ew, R2&& rr)
-    : id(i), reactive(re), r((R2&&)rr), watch(w), ewatch(ew) {
+  leaf_op(int i, bool re, const payload* w, R2&& rr) : id(i), reactive(re), r((R2&&)rr), watch(w) {
     log("ctor " + std::to_string(id));   // implementation-only marker (C02 monitor: constructions vs destructions)
   }
   leaf_op(leaf_op&&) = delete;
@@ -304,7 +258,6 @@ struct leaf_op {
     if (alive_ != 0x600DC0DEu) { log("dtor_dead " + std::to_string(alive_ == 0xDEADDEADu ? id : -1)); return; }
     alive_ = 0xDEADDEADu;
     if (watch && !watch->is_alive()) log("dtor_watch_dead " + std::to_string(id));   // C02: the value this op refers to is gone
-    if (ewatch_dead()) log("dtor_ewatch_dead " + std::to_string(id));                // C02: the error this op refers to is gone
     if (!started_) { log("dtor_ns " + std::to_string(id)); return; }
     if (!done_) {   // destroyed before it completed: C02 violation (reported by the monitor)
       log("dtor_early " + std::to_string(id));
@@ -320,7 +273,6 @@ struct leaf_op {
     c.op = this; c.complete_fn = &do_complete; c.started = true; c.completed = false;
     started_ = true;
     if (watch && !watch->is_alive()) log("start_watch_dead " + std::to_string(id));
-    if (ewatch_dead()) log("start_ewatch_dead " + std::to_string(id));
     auto tok = unifex::get_stop_token(r);
     char buf[200];
     std::snprintf(buf, sizeof buf, "start %d stopped=%d stoppable=%d q0=%d q1=%d sch=%d ctx=%d", id, (int)tok.stop_requested(),
@@ -360,10 +312,10 @@ struct leaf {
   static constexpr bool sends_done = true;
   static constexpr unifex::blocking_kind blocking = unifex::blocking_kind::maybe;
   static constexpr bool is_always_scheduler_affine = false;
-  int id; bool reactive; const payload* watch = nullptr; const std::exception_ptr* ewatch = nullptr;
+  int id; bool reactive; const payload* watch = nullptr;
   template <typename R>
   friend leaf_op<unifex::remove_cvref_t<R>> tag_invoke(unifex::tag_t<unifex::connect>, const leaf& s, R&& r) {
-    return leaf_op<unifex::remove_cvref_t<R>>{s.id, s.reactive, s.watch, s.ewatch, (R&&)r};
+    return leaf_op<unifex::remove_cvref_t<R>>{s.id, s.reactive, s.watch, (R&&)r};
   }
 };
 
@@ -386,8 +338,8 @@ template <typename F> auto lvss(bool now, F f) {
   });
 }
 // a leaf whose value is passed through a callable that first requests stop on the given source
-template <typename Src> auto leafr(int id, Src* src, const payload* watch = nullptr, const std::exception_ptr* ewatch = nullptr) {
-  return unifex::then(leaf{id, false, watch, ewatch}, [id, src](const payload& p) noexcept {
+template <typename Src> auto leafr(int id, Src* src, const payload* watch = nullptr) {
+  return unifex::then(leaf{id, false, watch}, [id, src](const payload& p) noexcept {
     log("reqstop " + std::to_string(id));
     src->request_stop();
     return payload(p.v);
@@ -448,6 +400,7 @@ template <typename S> auto intov(S&& s) {
 }
 
 // ---- counting allocators (stage 5): allocate(s) takes the child operation's block from get_allocator(receiver) ------
+inline std::map<void*, int> BLOCKS;      // live blocks -> the allocator they came from
 template <typename T>
 struct calloc {
   using value_type = T;
@@ -456,14 +409,14 @@ struct calloc {
   template <typename U> calloc(const calloc<U>& o) noexcept : a(o.a) {}
   T* allocate(std::size_t n) {
     void* p = ::operator new(n * sizeof(T));
-    BLOCKS[p] = block_info{a, n * sizeof(T)};
+    BLOCKS[p] = a;
     log("alloc " + std::to_string(a));
     return static_cast<T*>(p);
   }
   void deallocate(T* p, std::size_t) noexcept {
     auto it = BLOCKS.find(p);
     if (it == BLOCKS.end()) log("free_unknown " + std::to_string(a));
-    else if (it->second.a != a) log("free_foreign " + std::to_string(a) + " from " + std::to_string(it->second.a));
+    else if (it->second != a) log("free_foreign " + std::to_string(a) + " from " + std::to_string(it->second));
     else log("free " + std::to_string(a));
     if (it != BLOCKS.end()) { BLOCKS.erase(it); ::operator delete(p); }
   }
@@ -536,7 +489,6 @@ std::string run_case(MakeSender mk, bool prestop, const std::vector<script_ev>& 
   using op_t = unifex::connect_result_t<decltype(mk()), root_receiver>;
   alignas(alignof(op_t) > 64 ? alignof(op_t) : 64) static unsigned char storage[sizeof(op_t) + 64];
   std::memset(storage, 0xAB, sizeof storage);
-  ROOT_LO = storage; ROOT_HI = storage + sizeof storage;
   op_t* op = nullptr;
   try {
     op = ::new (static_cast<void*>(storage)) op_t(unifex::connect(mk(), root_receiver{counting_token{ext.get_token()}}));
